@@ -319,6 +319,7 @@ _OIDS = [
     ('oidIpAddrBlockV2', 'PE_IP_ADDR_BLOCK_V2'), ('oidAsIds', 'PE_AUTONOMOUS_SYS_IDS'), ('oidAsIdsV2', 'PE_AUTONOMOUS_SYS_IDS_V2'),
     ('oidSubjectInfoAccess', 'PE_SUBJECT_INFO_ACCESS'),
     ('oidCtManifest', 'CT_RPKI_MANIFEST'), ('oidCtAspa', 'CT_ASPA'), ('oidCtRoa', 'ROUTE_ORIGIN_AUTHZ'),
+    ('oidExtensionRequest', 'EXTENSION_REQUEST'), ('oidCtRta', 'CT_RESOURCE_TAGGED_ATTESTATION'),
 ]
 EXTRA += [(lean, OIDF, r'pub const ' + rust + r':\s*[A-Za-z<>&\[\]0-9 ]+\s*=\s*Oid\(&\[([0-9,\s]*)\]\);', 'natlist',
            ['C01', 'C02', 'C04', 'C05', 'C10']) for lean, rust in _OIDS]
